@@ -587,8 +587,15 @@ def stream_config_gen(ctx):
              {'k': 'modify', 'size': 1, 'i': 0, 'step': -3, 'circular': True}] + cases
     res = ctx.impl('c16_catalog.py', {'mode': 'config', 'cases': cases})
     items = []
+    kept = []
     for c, r in zip(cases, res):
         k = c['k']
+        if r.get('ok') and k == 'modify' and not all(isinstance(r.get(f), int) and not isinstance(r.get(f), bool) for f in ('ret', 'idx')):
+            ctx.violation('C16/config/modify-bad-result', 'modify_controller did not return / leave an integer', c, 'integers', r)
+            continue
+        if r.get('ok') and k != 'modify' and not (all_strings_ok(r) and isinstance(r.get('id'), str)):
+            ctx.stream_broken('config_gen', f'uninterpretable result {r} for {c}')
+            continue
         nontrivial = (k == 'mk' and len(c['sels']) >= 2) or (k == 'parse' and any(ch in c['s'] for ch in ';:')) \
             or (k == 'modify' and c['step'] != 0)
         st.record(c, nontrivial=nontrivial)
@@ -597,6 +604,7 @@ def stream_config_gen(ctx):
             ctx.violation(f'C16/config/{k}-unexpected-exception', f'{k} raised {r.get("exc")}', c,
                           'a result or BiogemeError', r)
             continue
+        kept.append((c, r))
         if k == 'mk':
             want = (f'Some ({coq_sels(r["sels"])}, {coq_string(r["id"])})' if r['ok'] else 'None')
             items.append(f'(match set_selections {coq_sels(c["sels"])}, {want} with '
@@ -622,8 +630,7 @@ def stream_config_gen(ctx):
             if r['ok'] and not (0 <= r['idx'] < c['size']):
                 ctx.violation('C16/config/index-out-of-range', 'modify_controller left the index out of range', c,
                               f'0 <= index < {c["size"]}', r)
-    run_bool_items(ctx, st, 'config_gen', items, [(c, r) for c, r in zip(cases, res)
-                                                    if r['ok'] or r.get('exc') == 'BiogemeError'])
+    run_bool_items(ctx, st, 'config_gen', items, kept)
 
 
 def run_bool_items(ctx, st, name, items, origin, chunk=250):
@@ -701,7 +708,7 @@ def plan_case(rng, spec, quick, value_mode):
         for cfg in opcfgs:
             for s in sorted(steps):
                 ops.append({'op': opn, 'cfg': canon_id(cfg), 'step': s, 'inverse': inv})
-    cap = 300 if quick else 1500
+    cap = 300 if quick else 1000
     if len(ops) > cap:
         ops = rng.sample(ops, cap)
     case = {'spec': spec, 'iterate': total + 3, 'configure': configure, 'roundtrip': roundtrip, 'ops': ops,
@@ -790,7 +797,7 @@ def check_structure(ctx, sts, idx, case, info, r, items, origin):
                 break
         names = tree_names(hand_tree)
         for k in ('free', 'fixed', 'var'):
-            if 'elem' in o and (sorted(names[k]) != o['elem'][k] or sorted(names[k]) != o['elem_dict'][k]):
+            if 'elem' in o and (sorted(names[k]) != o['elem'].get(k) or sorted(names[k]) != o.get('elem_dict', {}).get(k)):
                 ctx.violation('C16/configure/elementary-expressions-differ',
                               f'{k}: elementary expressions of the configured formula differ from the hand-written one',
                               w, sorted(names[k]), o.get('elem'))
@@ -840,6 +847,11 @@ def check_structure(ctx, sts, idx, case, info, r, items, origin):
         if not o.get('ok'):
             ctx.violation('C16/operators/exception', f'operator {q["op"]} raised on a valid configuration', w, 'a valid configuration', o)
             continue
+        if not isinstance(o.get('ret'), int) or isinstance(o.get('ret'), bool) or \
+                ('back' in o and (not isinstance(o.get('back_ret'), int) or isinstance(o.get('back_ret'), bool))):
+            ctx.violation('C16/operators/bad-count', f'operator {q["op"]} did not return an integer number of modifications', w,
+                          'an int', o)
+            continue
         if o['id'] not in idset:
             ctx.violation('C16/operators/leaves-the-product', f'operator {q["op"]} returned a configuration outside the product',
                           w, 'a member of the product', o)
@@ -873,7 +885,7 @@ def stream_structures(ctx):
                       '(thorough: also 0, negative, 7, 3*size), inverse operator applied to the result; non-trivial = step != 0 '
                       'and 2+ configurations')
     rng = ctx.sub_rng('structures')
-    n = ctx.n(36, 320)
+    n = ctx.n(36, 200)
     specs = []
     corpus_dir = ctx.scratch.parent.parent / 'corpus' / 'C16'
     for p in sorted(corpus_dir.glob('*.json')):
@@ -912,7 +924,14 @@ def stream_structures(ctx):
     per_struct = []
     for idx, (c, info, r) in enumerate(zip(cases, infos, results)):
         a = len(items)
-        check_structure(ctx, (st_s, st_c, st_o), idx, c, info, r, items, origin)
+        try:
+            check_structure(ctx, (st_s, st_c, st_o), idx, c, info, r, items, origin)
+        except (KeyError, TypeError, ValueError, IndexError, AssertionError, AttributeError) as e:
+            # output of an unexpected shape (a mutated library): fail closed, not a harness crash
+            del items[a:]
+            del origin[a:]
+            ctx.stream_broken('structure', f'implementation output could not be interpreted ({type(e).__name__}: {e}) for '
+                              + json.dumps(c['spec'])[:1500])
         per_struct.append((a, len(items)))
     # Coq: checks distributed over files of balanced size (a structure's definition goes with its
     # first check, so a structure is never split)
